@@ -146,6 +146,8 @@ def run_history(c):
         cls.append("depth>0-at-start")
     if any(f for _, _, f, _, _ in snap0):
         cls.append("fixed-cells")
+    if any(cell.get("hard") for cell in c["cells"]):
+        cls.append("fixed-cells-that-are-hard-rectangles")
     for k, op0 in enumerate(c["ops"]):
         if len(prev) > 600:
             break
@@ -195,5 +197,5 @@ def history_s(draw):
 
 def subchecks():
     return [Sub("histories", run_history, strategy=history_s(), n_quick=4000, n_thorough=100000, fuzz_thorough=2000,
-                required=("x-boundaries!=y-boundaries", "two-more-x-than-y", "depth>0-at-start", "fixed-cells",
+                required=("x-boundaries!=y-boundaries", "two-more-x-than-y", "depth>0-at-start", "fixed-cells", "fixed-cells-that-are-hard-rectangles",
                           "composition-of-2-operations", "cut-by-refine", "cut-by-uniform", "cut-by-griddify"))]
